@@ -24,7 +24,7 @@ ASSUMPTIONS = [
 ]
 FUZZ_RUNS = 40000   # thorough tier: libFuzzer runs per campaign of the coverage-guided stage (vf/fuzz.py)
 BUDGET = {
-    "quick": {"examples": 1000, "workers": 8, "time_cap": 70},
+    "quick": {"examples": 1500, "workers": 8, "time_cap": 70},
     "thorough": {"examples": 15000, "workers": 14, "time_cap": 900},
 }
 # no bare "/" and nothing absolute except ABS (which resolves into the per-case sandbox): a tool that fails this
